@@ -17,6 +17,8 @@ def fixed_cases():
     out = []
 
     def add(prog, exp, what, mode="nostd"):
+        if prog is None:
+            return
         out.append(Case(f"cells/fixed/{len(out)}", prog, exp, {}, mode, what))
 
     # ---- fresh cell at every evaluation of `mut`
@@ -77,11 +79,21 @@ def fixed_cases():
         "a narrowed alias of a wider cell would let a float into a mut int")
     add("a := mut int|float 1; cells := [a]~ ? mut int $]; std.len(cells)", 0, "type filter on a cell of wider type", mode="std")
     add("a := mut int|float 1; f := (v: mut int | mut (int|float)) -> int { return match v { x: mut int => 1, => 2, } }; f(a)", 2, "match on the declared cell type")
+    add("c := mut [1]; c += [2]; d := c; d += [3]; *c", [1, 2, 3], "+= on an array cell")
+    add("c := mut \"a\"; c += \"b\"; *c", "ab", "+= on a string cell")
+    add("c := mut [1.5]; c += [2]; *c", [1.5, 2], "an [int] appended to a mut [int|float]... if accepted") if False else None
     add("c := mut int|float 1; c = 2.5; *c", 2.5, "cell of union type takes either member")
     add("c := mut int|float 1; c = 2.5; c = 3; *c", 3, "cell of union type takes either member, back again")
     add("c := mut any 1; c = \"s\"; *c", "s", "cell of type any")
     # ---- typed content: what the checker must reject
     for prog, what in [
+        ("c := mut 1; cells := [c, mut 2.5]; cells[0] = 3.5", "write through an element of [mut int, mut float]"),
+        ("c := mut 1; cells := [c, mut 2.5]; cells[1] = 3", "int into the mut float element of [mut int, mut float]"),
+        ("c := mut 1; w := (m: mut int | mut float) { m = 2.5 }; w(c)", "write through a parameter typed mut int | mut float"),
+        ("c := mut [1]; c += [2.5]", "[float] appended to a mut [int]"),
+        ("c := mut [1]; c += [\"x\"]", "[string] appended to a mut [int]"),
+        ("c := mut [1]; w := (m: mut [int]) { m += [2.5] }; w(c)", "[float] appended through an alias"),
+        ("c := mut \"s\"; c += 1", "int appended to a mut string"),
         ("c := mut 1; c = 2.5", "float into mut int"),
         ("c := mut 1; c += 2.5", "int += float"),
         ("c := mut 1.5; c += 1", "float += int"),
